@@ -3,6 +3,7 @@ import Driver.TextOps
 import Driver.ParseOps
 import Driver.GenOps
 import Driver.BuildOps
+import Driver.HeapOps
 open Lean
 
 def handleLine (line : String) : String :=
@@ -19,6 +20,7 @@ def handleLine (line : String) : String :=
           ParseOps.handle op j
         else if op.startsWith "portsel." || op.startsWith "cpp." then GenOps.handle op j
         else if op == "build" || op.startsWith "build." then BuildOps.handle op j
+        else if op == "heap" then HeapOps.handle op j
         else .error s!"unknown op {op}"
       match r with
       | .ok out => out.compress
